@@ -59,12 +59,21 @@ func (p *Parser) Parse(input string) (*ParserResult, error) {
 		return result, result.Error
 	}
 
+	return p.ParseSQL(inputResult.Content)
+}
+
+// ParseSQL parses SQL text that is already in memory (stdin). Unlike Parse it
+// never interprets its argument as a possible file path: SQL read from stdin
+// that contains a '/' (a comment, a division) or ends in ".sql" is still SQL.
+func (p *Parser) ParseSQL(content []byte) (*ParserResult, error) {
+	result := &ParserResult{}
+
 	// Use pooled tokenizer
 	tkz := tokenizer.GetTokenizer()
 	defer tokenizer.PutTokenizer(tkz)
 
 	// Tokenize
-	tokens, err := tkz.Tokenize(inputResult.Content)
+	tokens, err := tkz.Tokenize(content)
 	if err != nil {
 		result.Error = fmt.Errorf("tokenization failed: %w", err)
 		return result, result.Error
